@@ -23,7 +23,7 @@ META = {
                    'probability weight as a polynomial in p (branch u<=p contributes p or 1-p, slot 1/k); one nonlinear-real validity '
                    'query per (k, n, t): sum of weights of paths retaining arrival t == p(1-p/k)^(n-t) resp. (1-p/k)^(n-k), for ALL p.',
     'bounds': {'quick': {'k': '1..3', 'n': '<= k+3', 'p': 'symbolic in [0,1], default 1/k, 1'},
-               'thorough': {'k': '1..4', 'n': '<= k+4', 'p': 'symbolic in [0,1], default 1/k, 1'}},
+               'thorough': {'k': '1..5', 'n': '<= k+5 (k<=3), k+4 (k=4,5)', 'p': 'symbolic in [0,1], default 1/k, 1'}},
     'outside': ['stream lengths beyond the bound for the closed-form law (the one-step law is for any state)',
                 'the measure-zero event u == p (so < versus <= is deliberately not distinguished)',
                 'quality of the Mersenne Twister itself'],
@@ -34,13 +34,13 @@ META = {
 
 def configs(tier):
     cfgs = []
-    kmax = 3 if tier == 'quick' else 4
+    kmax = 3 if tier == 'quick' else 5
     for k in range(1, kmax + 1):
         for tg in (True, False):
             cfgs.append(dict(group='step', k=k, targets=tg))
         cfgs.append(dict(group='fill', k=k))
         for p in ('sym', 'default', 'one'):
-            extra = 3 if tier == 'quick' else 4
+            extra = 3 if tier == 'quick' else (5 if k <= 3 else 4)
             cfgs.append(dict(group='law', k=k, n=k + extra, p=p, _cost=(k + 1) ** extra))
     cfgs.append(dict(group='ctor', k=3))
     return cfgs
